@@ -210,3 +210,57 @@ func VerifC26_backpressure() {
 	p.Close()
 	verifReach("backpressure")
 }
+
+// VerifC26_partial: one Receive subscribed to two channels; the server drops one of them (an
+// unsubscribe push for "a" only), which ends the Receive, and then still publishes on "b". The
+// finished subscriber must be gone from every channel it had: the connection stays healthy.
+func VerifC26_partial() {
+	conn := newVerifConn()
+	srv := newVerifServer(conn)
+	p := verifNewPipe(conn, verifChoose(2) == 1)
+	verifGo("server", func() {
+		verifDaemon()
+		for {
+			argv, ok := srv.next()
+			if !ok {
+				return
+			}
+			switch argv[0] {
+			case "SUBSCRIBE":
+				for i, ch := range argv[1:] {
+					srv.send(verifPush("subscribe", ch, ":"+strconv.Itoa(i+1)))
+				}
+			case "UNSUBSCRIBE":
+				srv.send(verifPush("unsubscribe", "b", ":0"))
+			case "PING":
+				srv.send("+PONG\r\n")
+			case "ID":
+				srv.send(verifPush("unsubscribe", "a", ":1"))
+				srv.send(verifPush("message", "b", "late"))
+				srv.send(":" + argv[1] + "\r\n")
+			}
+		}
+	})
+	confirmed := make(chan string, 4)
+	var got []string
+	var err error
+	verifGo("recv", func() {
+		ctx := WithOnSubscriptionHook(context.Background(), func(s PubSubSubscription) {
+			if s.Kind == "subscribe" {
+				confirmed <- s.Channel
+			}
+		})
+		sub := cmds.NewBuilder(cmds.NoSlot).Subscribe().Channel("a", "b").Build()
+		err = p.Receive(ctx, sub, func(m PubSubMessage) { got = append(got, m.Channel+":"+m.Message) })
+	})
+	<-confirmed
+	<-confirmed
+	id, e := p.Do(context.Background(), cmds.NewBuilder(cmds.NoSlot).Arbitrary("ID").Args("1").Build()).AsInt64()
+	verifAssert(e == nil && id == 1, "the regular command keeps its own reply next to the pushes")
+	verifJoin()
+	verifAssert(err == nil, "an unsubscribe confirmation ends the Receive without error")
+	pong, e2 := p.Do(context.Background(), cmds.PingCmd).ToString()
+	verifAssert(e2 == nil && pong == "PONG", "the connection keeps serving commands after a message for a channel nobody listens to any more")
+	verifReach("partial")
+	p.Close()
+}
